@@ -3,6 +3,7 @@ import ast
 import re
 
 from ..core import AnalysisError
+from .shared_py import inn
 from ..pyfront import unparse, norm_key, try_const
 
 MODULES = ('prophyc', 'prophyc.__main__', 'prophyc.options', 'prophyc.file_processor', 'prophyc.model', 'prophyc.calc', 'prophyc.patch',
@@ -208,7 +209,7 @@ def paths(ctx, L):
     L.count('path-sensitive constructs', n)
     main = ctx.py.func('prophyc:main')
     s = ws(unparse(main.node))
-    L.check('FileProcessor(model_parser, opts.include_dirs)' in s, 'F11.cwd-dependence', 'main|include-dirs', main.site(),
+    L.check(inn('FileProcessor(model_parser, opts.include_dirs)', s), 'F11.cwd-dependence', 'main|include-dirs', main.site(),
             'the include search path must be exactly the -I directories (plus the including file\'s own directory): an implicit entry such as '
             'the working directory makes the result depend on where prophyc is run', '')
     cs = ctx.py.func('prophyc:create_supplements')
@@ -315,15 +316,15 @@ def output_names(ctx, L):
             'output names derive from the input file\'s base name only', '')
     s = ctx.py.mod('prophyc.generators.base').func('GeneratorBase.serialize')
     src = ws(unparse(s.node))
-    L.check('for extension, translator_type in self.top_level_translators.items(): file_path = _make_path(self.output_dir, base_name, extension) '
-            'translator = translator_type() file_content = translator(nodes, base_name) _write_file(file_path, file_content)' in src,
+    L.check(inn('for extension, translator_type in self.top_level_translators.items(): file_path = _make_path(self.output_dir, base_name, extension) '
+            'translator = translator_type() file_content = translator(nodes, base_name) _write_file(file_path, file_content)', src),
             'F11.output-names', 'GeneratorBase.serialize', s.site(),
             'one fresh translator per output file; the path is output_dir / base_name + extension', src)
     mp = ctx.py.mod('prophyc.generators.base').func('_make_path')
     L.check(ws(unparse(mp.node.body[-1])) == 'return os.path.join(output_dir, base_name + extension)', 'F11.output-names', '_make_path', mp.site(), 'path shape', '')
     m = ctx.py.func('prophyc:main')
     src = ws(unparse(m.node))
-    L.check('basename = get_basename(input_file) model_nodes[basename] = nodes' in src and 'generate_target_files(emit, serializers, model_nodes)' in src,
+    L.check(inn('basename = get_basename(input_file) model_nodes[basename] = nodes', src) and inn('generate_target_files(emit, serializers, model_nodes)', src),
             'F11.output-names', 'main|per-file-outputs', m.site(), 'each input file\'s nodes are generated under its own base name, in input order '
             '(dict insertion order)', '')
     py = ctx.py.mod('prophyc.generators.python').func('_PythonTranslator.translate_include')
